@@ -314,6 +314,7 @@ class OpenFamily(Family):
         rng = Rng(int(seed) * 15485863 + int(i))
         st = F.Stats()
         tl = F.gen_table_case(rng, st, mode="sorted", comp=0, small=True, nkeys=rng.pick([0, 1, 2, 5, 12]))
+        tl = [l.split(" ", 1)[1] if l.startswith("@") else l for l in tl]
         tl = [l for l in tl if l.startswith(("reset", "w."))]
         tl[1] = " ".join(a for a in tl[1].split(" ") if not a.startswith("pre=")) + " pre=-"
         res1 = vlib.run_script(exe, tl)
@@ -762,10 +763,13 @@ class CorruptFamily(Family):
         rng = Rng(int(seed) * 7000003 + int(i) * 29)
         st = getattr(self, "stats", F.Stats())
         tl = F.gen_table_case(rng, st, mode="sorted", small=True, nkeys=rng.pick([1, 3, 6, 12, 20]))
+        tl = [l.split(" ", 1)[1] if l.startswith("@") else l for l in tl]
         tl = [l for l in tl if l.startswith(("reset", "w."))]
         tl[1] = " ".join(a for a in tl[1].split(" ") if not a.startswith("pre=")) + " pre=-"
         res1 = vlib.run_script(exe, tl)
         fin = [r for r in res1 if r["req"].startswith("w.fin") and r["real"].startswith("file ")]
+        if not fin and any(r["req"].startswith("w.fin") for r in res1):
+            res1.append({"req": "#corrupt-setup", "real": "w.fin gave no file", "model": "file", "side": []})
         if not fin:
             return res1
         good = unhx(fin[0]["real"].split(" ")[1])
@@ -788,13 +792,19 @@ class CorruptFamily(Family):
             tgt = rng.below(len(frames) + 1)
             o, n, ln = frames[tgt] if tgt < len(frames) else (io, inn, iln)
             nbits = 8 * (ln + 4)               # checksum field (4 bytes) then stored bytes, in file order
-            kind = rng.pick(["1bit", "2bit", "3bit", "burst", "field"])
+            kind = rng.pick(["1bit", "2bit", "3bit", "burst", "field", "tail", "head"])
             if kind == "burst":
                 start = rng.below(max(1, nbits - 32)); pat = rng.below((1 << 32) - 1) + 1
                 pos = [start + b for b in range(32) if (pat >> b) & 1 and start + b < nbits]
                 # keep the burst inside the stored bytes or inside the field (a CRC burst in the codeword's own bit order)
                 if pos and not (all(p < 32 for p in pos) or all(p >= 32 for p in pos)):
                     pos = [p for p in pos if p >= 32] or pos
+            elif kind in ("tail", "head"):
+                # 1..3 flipped bits inside the last (first) 8 stored bytes: the bytes an implementation's tail (prologue)
+                # handling is responsible for
+                w = min(64, 8 * ln)
+                base = 32 + (8 * ln - w if kind == "tail" else 0)
+                pos = sorted(set(base + rng.below(max(1, w)) for _ in range(rng.pick([1, 1, 2, 3])))) if ln else [rng.below(32)]
             elif kind == "field":
                 pos = sorted(set(rng.below(32) for _ in range(rng.pick([1, 2, 5]))))
             else:
